@@ -1,7 +1,7 @@
 #include "slu_mt_@p@defs.h"
 extern void p@p@gstrf_WorkFree(int_t *, @T@ *, GlobalLU_t *);
 /* ghosts: pre-state of the file-static user stack; lowest offset of another thread's live TAIL block */
-int_t g_size0, g_used0, g_top10, g_top20, g_other_lo;
+int_t g_size0, g_used0, g_top10, g_top20, g_other_lo, g_users0;
 /* inputs */
 char in_work[WCAP]; GlobalLU_t in_Glu; int_t in_ioff, in_doff;
 void h_work_free_user(void) {
